@@ -133,6 +133,9 @@ Verdict(r) ==
               ELSE IF ~SameExceptLock(fin, FinalExpected(r)) THEN Fail("memory-changed", 0)
               ELSE IF Props(bank).latch /\ fin[3] = 170 THEN Fail("left-latched", 0)
               ELSE Pass
+      [] r.seq = "write-bad" ->
+           \* data that is no byte string (an int, a bool, None, a float, text): refused, nothing sent, nothing changed
+           IF r.out.exc # "none" /\ Len(r.ev) = 0 THEN Pass ELSE Fail("non-bytes-data-not-refused-before-sending", Len(r.ev))
       [] r.seq = "write" /\ r.locs # <<>> /\ r.lit # "" /\ WD(r) = <<>> ->
            \* a number that does not fit the value: refused before anything is sent
            IF r.out.exc # "none" /\ Len(r.ev) = 0 THEN Pass ELSE Fail("unrepresentable-number-not-refused", Len(r.ev))
